@@ -71,7 +71,8 @@ type ReqScene struct {
 	Consumer sdk.AccAddress
 	ID       []byte
 	Pre      types.RequestContext
-	MaxTotal int64 // ghost: largest total ever in force (>= current total)
+	MaxTotal  int64 // ghost: largest total ever in force (>= current total)
+	Unbounded bool  // ghost: total -1 (no limit) was in force at some time
 
 	// current batch
 	M       int
@@ -128,7 +129,9 @@ func (s *ReqScene) ctxFields(tag string, o ReqOpts) {
 	// repeated: frequency >= timeout, total is -1 or positive; one-shot: both zero, at most one batch
 	vf.Assume(vf.Implies(repeated, vf.And(vf.And(freq >= uint64(timeout), freq < uint64(maxH)),
 		vf.And(vf.And(vf.Or(total == -1, total >= 1), total < maxH), vf.And(s.MaxTotal >= total, s.MaxTotal < maxH)))))
-	vf.Assume(vf.Implies(vf.And(repeated, total > 0), int64(bc) <= s.MaxTotal))
+	s.Unbounded = vf.Bool(tag + ".everUnbounded")
+	vf.Assume(vf.Implies(vf.And(repeated, total == -1), s.Unbounded))
+	vf.Assume(vf.Implies(vf.And(repeated, !s.Unbounded), int64(bc) <= s.MaxTotal))
 	vf.Assume(vf.Implies(!repeated, vf.And(vf.And(freq == 0, total == 0), bc <= 1)))
 	if o.AtExpiry && !o.Restart {
 		vf.Assume(vf.Implies(repeated, freq > uint64(timeout)))
@@ -150,7 +153,7 @@ func (s *ReqScene) ctxFields(tag string, o ReqOpts) {
 // counterRoom: the C10 invariant for a context with no batch in flight (a pending start or idle):
 // the batch counter is strictly below the largest total ever in force; a one-shot has not run yet.
 func (s *ReqScene) counterRoom() {
-	vf.Assume(vf.Implies(vf.And(s.Pre.Repeated, s.Pre.RepeatedTotal > 0), int64(s.Pre.BatchCounter) < s.MaxTotal))
+	vf.Assume(vf.Implies(vf.And(s.Pre.Repeated, !s.Unbounded), int64(s.Pre.BatchCounter) < s.MaxTotal))
 	vf.Assume(vf.Implies(!s.Pre.Repeated, s.Pre.BatchCounter == 0))
 }
 
